@@ -95,20 +95,37 @@ Section WithTables.
                           | Some c => col_validate sch None c
                           end) (rlist r).
 
-  (* the self-consistency assertions of MafRecord.validate *)
-  Definition rec_asserts_ok (r : crec) : bool :=
-    if existsb is_none (rlist r) then true
-    else Nat.eqb (length (rdict r)) (length (rlist r))
-         && forallb (fun p => match snd p with
-                              | Some c => match cidx c with Some i => Z.eqb i (Z.of_nat (fst p)) | None => false end
-                                          && is_some (assoc (ckey c) (rdict r))
-                              | None => false
-                              end) (List.combine (seq 0 (length (rlist r))) (rlist r)).
+  (* the self-consistency part of MafRecord.validate (run when no slot is None):
+     name map and slot list must hold the same columns, every column must
+     report the index of its slot; problems are validation errors *)
+  Definition rec_sync_errors (ln : option Z) (r : crec) : list verr :=
+    if existsb is_none (rlist r) then []
+    else
+      (if negb (Nat.eqb (length (rdict r)) (length (rlist r)))
+          || existsb (fun o => match o with
+                               | Some c => match assoc (ckey c) (rdict r) with
+                                           | Some c' => negb (match cidx c, cidx c' with
+                                                              | Some i, Some j => Z.eqb i j
+                                                              | None, None => true
+                                                              | _, _ => false end)
+                                           | None => true
+                                           end
+                               | None => false
+                               end) (rlist r)
+       then [mkerr "RECORD_OUT_OF_SYNC" ln None] else [])
+      ++ flat_map (fun p => match snd p with
+                            | Some c => match cidx c with
+                                        | Some i => if Z.eqb i (Z.of_nat (fst p)) then []
+                                                    else [mkerr "RECORD_COLUMN_INDEX_OUT_OF_SYNC" ln None]
+                                        | None => [mkerr "RECORD_COLUMN_INDEX_OUT_OF_SYNC" ln None]
+                                        end
+                            | None => []
+                            end) (List.combine (seq 0 (length (rlist r))) (rlist r)).
 
   Definition rec_validate (m : mode) (sch : option scheme) (ln : option Z) (old : list verr) (r : crec)
     : res (list verr) :=
-    let errs := (old ++ rec_validate_errors sch ln r)%list in
-    if rec_asserts_ok r then process_errors m errs errs else Raise AssertionError.
+    let errs := (old ++ rec_validate_errors sch ln r ++ rec_sync_errors ln r)%list in
+    process_errors m errs errs.
 
   (* one field of from_line: build, validate, store *)
   Definition parse_field (sch : option scheme) (ln : option Z) (i : nat) (name : str) (text : str)
